@@ -275,6 +275,85 @@ func VP_C08_JoinedCollider() {
 	vp.Reach("end")
 }
 
+// vpMultiStub: an arbitrary MultiCollider whose surface lies inside its own
+// (symbolic) bounds: a triangle / rect query can only touch it if the query's
+// box meets the bounds (touching and flat boxes included), a segment query
+// only if some point of the segment is inside the bounds.
+type vpMultiStub struct {
+	vpBoxCollider
+}
+
+func vpBoxesMeet(amin, amax, bmin, bmax Coord3D) bool {
+	return vp.All(amin.X <= bmax.X, bmin.X <= amax.X, amin.Y <= bmax.Y, bmin.Y <= amax.Y, amin.Z <= bmax.Z, bmin.Z <= amax.Z)
+}
+
+func (s *vpMultiStub) TriangleCollisions(t *Triangle) []Segment {
+	hit := vp.MemoBool(s.name+".tri", t[0].X, t[0].Y, t[0].Z, t[1].X, t[1].Y, t[1].Z, t[2].X, t[2].Y, t[2].Z)
+	vp.Assume(vp.Implies(hit, vpBoxesMeet(t.Min(), t.Max(), s.min, s.max)))
+	if hit {
+		return []Segment{{s.min, s.max}}
+	}
+	return nil
+}
+
+func (s *vpMultiStub) SegmentCollision(seg Segment) bool {
+	hit := vp.MemoBool(s.name+".seg", seg[0].X, seg[0].Y, seg[0].Z, seg[1].X, seg[1].Y, seg[1].Z)
+	lam := vp.Float64(s.name + ".lambda") // witness: a point of the segment inside the bounds
+	vp.Assume(vp.And(lam >= 0, lam <= 1))
+	p := seg[0].Add(seg[1].Sub(seg[0]).Scale(lam))
+	vp.Assume(vp.Implies(hit, vpInBox(p, s.min, s.max)))
+	return hit
+}
+
+func (s *vpMultiStub) RectCollision(r *Rect) bool {
+	hit := vp.MemoBool(s.name+".rect", r.MinVal.X, r.MinVal.Y, r.MinVal.Z, r.MaxVal.X, r.MaxVal.Y, r.MaxVal.Z)
+	vp.Assume(vp.Implies(hit, vpBoxesMeet(r.MinVal, r.MaxVal, s.min, s.max)))
+	return hit
+}
+
+// VP_C08_JoinedMulti: the hierarchical multi-collider built by
+// GroupedCollidersToCollider over n arbitrary children answers triangle,
+// segment and rect queries like a linear scan (no child whose bounds the
+// query touches is pruned; flat and touching boxes included).
+func VP_C08_JoinedMulti() {
+	n := vp.Param("n")
+	names := []string{"A", "B", "C", "D"}
+	var kids []*vpMultiStub
+	var list []Collider
+	for i := 0; i < n; i++ {
+		k := &vpMultiStub{vpBoxCollider{vpStubCollider{vpBoxSolid: *vpNewBoxSolid(names[i])}}}
+		kids = append(kids, k)
+		list = append(list, k)
+	}
+	j := GroupedCollidersToCollider(list).(MultiCollider)
+	switch vp.Param("query") {
+	case 0:
+		t := &Triangle{vpPoint("t0"), vpPoint("t1"), vpPoint("t2")}
+		want := 0
+		for _, k := range kids {
+			want += len(k.TriangleCollisions(t))
+		}
+		vp.Assert(len(j.TriangleCollisions(t)) == want, "triangle query returns every child's segments (no touching child pruned)")
+	case 1:
+		seg := Segment{vpPoint("s0"), vpPoint("s1")}
+		want := false
+		for _, k := range kids {
+			want = vp.Or(want, k.SegmentCollision(seg))
+		}
+		vp.Assert(j.SegmentCollision(seg) == want, "segment query is the disjunction over the children")
+	case 2:
+		mn, mx := vpPoint("rmin"), vpPoint("rmax")
+		vp.Assume(vp.All(mn.X <= mx.X, mn.Y <= mx.Y, mn.Z <= mx.Z))
+		r := &Rect{MinVal: mn, MaxVal: mx}
+		want := false
+		for _, k := range kids {
+			want = vp.Or(want, k.RectCollision(r))
+		}
+		vp.Assert(j.RectCollision(r) == want, "rect query is the disjunction over the children")
+	}
+	vp.Reach("end")
+}
+
 // VP_C08_CoordTree: a k-d tree built by the real constructor from n symbolic
 // points (any coincidences, any order) answers Contains, NearestNeighbor,
 // SphereCollision and KNN like a linear scan over the points, and Slice
@@ -430,6 +509,55 @@ func VP_C08_BVH() {
 			}
 		}
 		vp.Assert(cnt == 1, "every object is in exactly one leaf of the hierarchy")
+	}
+	vp.Reach("end")
+}
+
+// vpMemoSolid: an arbitrary solid inside fixed bounds; every membership
+// answer inside the bounds is a solver variable, outside it is false.
+type vpMemoSolid struct {
+	min, max Coord3D
+}
+
+func (s *vpMemoSolid) Min() Coord3D { return s.min }
+func (s *vpMemoSolid) Max() Coord3D { return s.max }
+func (s *vpMemoSolid) Contains(c Coord3D) bool {
+	if !InBounds(s, c) {
+		return false
+	}
+	return vp.MemoBool("contains", c.X, c.Y, c.Z)
+}
+
+// VP_C07_SolidCollider: the ray-marching collider over an arbitrary solid
+// (every sampled membership answer symbolic): FirstRayCollision exists iff
+// RayCollisions counts at least one, it is the first one reported, and every
+// reported collision is in front of the origin. (That the reported point is
+// exactly a point the solid was asked about does not hold at ulp level -
+// t-fracStep is not bit-identical to the previous sample - and is not what
+// the property asks of an approximate collider; not asserted.)
+// Rays from a menu (from inside, from outside, leaving through the bounding
+// box), Epsilon 0.4 on a unit box, BisectCount 2, one normal sample.
+func VP_C07_SolidCollider() {
+	solid := &vpMemoSolid{min: XYZ(0, 0, 0), max: XYZ(1, 1, 1)}
+	sc := &SolidCollider{Solid: solid, Epsilon: 0.4, BisectCount: 2, NormalSamples: 1}
+	rays := []*Ray{
+		{Origin: XYZ(0.5, 0.5, 0.5), Direction: X(1)},
+		{Origin: XYZ(-0.5, 0.5, 0.5), Direction: X(1)},
+		{Origin: XYZ(0.5, 0.5, 0.25), Direction: Z(-2)},
+		{Origin: XYZ(0.25, 0.5, 0.5), Direction: XYZ(1, 0.5, 0)},
+	}
+	r := rays[vp.Param("ray")]
+	var got []RayCollision
+	n := sc.RayCollisions(r, func(rc RayCollision) { got = append(got, rc) })
+	vp.Assert(n == len(got), "count equals the number of callbacks")
+	vp.Assert(sc.RayCollisions(r, nil) == n, "same count without a callback")
+	first, ok := sc.FirstRayCollision(r)
+	vp.Assert(ok == (n > 0), "FirstRayCollision exists iff the collision count is non-zero")
+	if ok && n > 0 {
+		vp.Assert(first.Scale == got[0].Scale, "FirstRayCollision is the first reported collision")
+	}
+	for _, rc := range got {
+		vp.Assert(rc.Scale >= 0, "collisions are in front of the origin")
 	}
 	vp.Reach("end")
 }
